@@ -3,7 +3,7 @@ import numpy as np
 import z3
 
 from symnp import stubs
-from symnp.core import ozeros
+from symnp.core import R, ozeros
 from symnp.harness import unit
 from harness import gp_common as gc
 
@@ -287,15 +287,31 @@ def multistart_selection(h, starts, p):
         h.assume(fs <= f0, "L-BFGS-B contract: result no worse than its start")
         launched.append((np.asarray(x0), xs, fs))
         return xs, fs, {"warnflag": 0}
-    h.patch(rg, cholesky=rg.cholesky, fmin_l_bfgs_b=lbfgs_contract)
+    real_lbfgs = rg.fmin_l_bfgs_b
+
+    def lbfgs_recorder(func, x0, *a, **kw):     # replay: the real optimiser, with its starting point recorded
+        out = real_lbfgs(func, x0, *a, **kw)
+        launched.append((np.asarray(x0, dtype=float).copy(), np.asarray(out[0]), out[1]))
+        return out
+    h.patch(rg, cholesky=rg.cholesky)
+    h.patch(rg, both=True, fmin_l_bfgs_b=lbfgs_contract if h.sym else lbfgs_recorder)
     sol = gp.multistart_bfgs(starts=starts, n_processes=1)
     h.same("one optimiser launch per start", len(launched) if h.sym else starts, starts)
     h.ge("selected hyper-parameters >= lower bounds", sol, lo)
     h.le("selected hyper-parameters <= upper bounds", sol, lo + wd)
     centre = lo + 0.5 * wd
     h.ge("score(selected) >= score(centre of the bounds box)", score(sol), score(centre))
+    if launched:
+        # the clause "scores at least as well as the centre of the bounds box" holds for every conforming optimiser only
+        # because one of the launches starts at the centre
+        if h.sym:
+            from symnp.core import SymBool
+            h.true("one of the optimiser launches starts at the centre of the box",
+                   SymBool(z3.Or(*[z3.And(*[R(a) == R(b) for a, b in zip(np.asarray(x0).ravel(), np.asarray(centre).ravel())]) for x0, _, _ in launched])))
+        else:
+            h.true("one of the optimiser launches starts at the centre of the box",
+                   any(np.allclose(np.asarray(x0, dtype=float), np.asarray(centre, dtype=float), rtol=1e-12, atol=1e-12) for x0, _, _ in launched))
     if h.sym:
-        h.eq("last start is the centre of the box", launched[-1][0], centre)
         for k, (x0, xs, fs) in enumerate(launched):
             h.ge(f"start {k} inside the bounds (lower)", x0, lo)
             h.le(f"start {k} inside the bounds (upper)", x0, lo + wd)
